@@ -1,10 +1,15 @@
 #!/bin/bash
-# usage: tools/round.sh <worktree-prefix> <id-offset> <prop> [extra confirm args]   e.g. tools/round.sh /tmp/wt3- 5 C09
+# usage: tools/round.sh <worktree-prefix> <id-offset> <prop> [extra confirm args]   e.g. tools/round.sh /tmp/wt4- 8 C03
+# confirms SEEDED/1..3 of the scratch worktree, keeps them as seeded/<prop>-<offset+i>, and runs the
+# quick check against each in a scratch snapshot (tools/seeded_wt.py)
 pre=$1; off=$2; p=$3; shift 3
+kept=""
 for i in 1 2 3; do
   k=$((i+off))
   [ -d "$pre$p/SEEDED/$i" ] || continue
-  echo "== $p-$k"
-  /verif/tools/confirm_seeded.py $p $i --wt $pre$p --as $k "$@" 2>&1 | grep -E '"confirmed"|kept as' | tr '\n' ' '; echo
-  [ -d /verif/seeded/$p-$k ] && /verif/tools/seeded.py /verif/seeded/$p-$k 2>&1 | tail -1 | cut -c1-300
+  if [ ! -d /verif/seeded/$p-$k ]; then
+    /verif/tools/confirm_seeded.py $p $i --wt $pre$p --as $k "$@" 2>&1 | grep -E '"confirmed"|kept as|demo_with' | tr '\n' ' '; echo " [$p-$k]"
+  fi
+  [ -d /verif/seeded/$p-$k ] && kept="$kept /verif/seeded/$p-$k"
 done
+[ -n "$kept" ] && /verif/tools/seeded_wt.py --tag r$p $kept 2>&1 | cut -c1-400
